@@ -5,7 +5,7 @@ import vlib
 
 PROP = dict(
     id="C17",
-    corr=["Model/FsmCorr.vo", "Model/C17Corr.vo"],
+    corr=["Model/FsmCorr.vo", "Model/C17Corr.vo", "Model/C08Invoice.vo"],
     design_ref="DESIGN.md §6 C17",
     technique="Coq: reflective check on the state tables (a negotiation wait accepts OnTimeout and is FailOnrecover, both leading through a cancel-sending state to a finished state) proved sound for ARBITRARY tables by symbolic execution of the engine model along the cancel path; leaf lemmas for the timer-arming actions; decided by vm_compute on the tables regenerated from the code; step-level correspondence with the real SwapService; monitor on observed scenarios with the timer durations seen by a step observer",
     level_text="Machine-checked for every swap data, every environment whose store writes succeed and every history with crashes/restarts: in each of the three negotiation waits (swap-out and swap-in requester without agreement, swap-out responder without fee payment) the 10-minute timer callback and a restart both cancel the swap, remove it from the active set and send the peer a cancel message (and do nothing else); the actions that begin the waits arm the timer and the fee invoice expires after 600 s. Three defects predicted by reading (D14, D15, D16) were refuted in Coq on the pre-fix tables (Findings/F_C17_*.v), reproduced on the real code and repaired by table fixes; the repaired tables satisfy the full statement.",
@@ -67,6 +67,14 @@ def run(ctx):
     res = vlib.eval_cases(d)
     ctx.rules.append(RULE)
     ctx.absorb(res, "fsm", signature=sig, describe=describe)
+    # adapter side: the fee invoice the node is asked to create really expires after the 600 s the swap asked for
+    d2 = ctx.harness("invoice", outdir=ctx.work + "/invoice", args=["-n", 40 if ctx.quick else 800])
+    if d2 is not None:
+        res2 = vlib.eval_cases(d2)
+        ctx.rules.append("invoice family: the real clightning / lnd GetPayreq over a fake node recording the `invoice` / AddInvoice request (fee invoice 600 s, claim invoices, random expiries): the expiry the node is asked for is the requested one")
+        ctx.absorb(res2, "invoice", signature=lambda c: "invoice:%s:expiry-or-other-field-differs-from-the-request" % c.get("backend", "?"),
+                   mismatch_is_violation=True,
+                   describe=lambda c: "GetPayreq of the %s adapter asked the node for %s when the swap requested %s (the fee invoice must expire with the 10 minute negotiation timeout)" % (c.get("backend"), c.get("node_was_asked"), c.get("requested")))
 
 
 def search(ctx):
